@@ -473,9 +473,14 @@ class ArcBasedRoutingProblem(RoutingProblem):
 
         # construct and save feasible solution
         self.enumerate_variables()
-        self.feasible_solution = np.zeros(self.num_variables)
+        feasible_solution = np.zeros(self.num_variables)
         for a in used_arcs:
-            self.feasible_solution[self.get_var_index(*a)] = 1
+            var_index = self.get_var_index(*a)
+            if var_index is None:
+                # (indexing with None would silently set every entry)
+                raise ValueError(f"Construction heuristic failed: {a} is not a variable")
+            feasible_solution[var_index] = 1
+        self.feasible_solution = feasible_solution
         return
 
     def check_and_add_exit_arc(self, node_index, cost=0):
